@@ -272,6 +272,12 @@ QVector<QXmppUploadService> QXmppUploadRequestManager::uploadServices() const
 
 bool QXmppUploadRequestManager::handleStanza(const QDomElement &element)
 {
+    // only responses are handled here, requests are answered with an error by the client
+    const auto type = element.attribute(u"type"_s);
+    if (type != u"result" && type != u"error") {
+        return false;
+    }
+
     if (QXmppHttpUploadSlotIq::isHttpUploadSlotIq(element)) {
         QXmppHttpUploadSlotIq slot;
         slot.parse(element);
